@@ -852,7 +852,23 @@ class Interp:
                 return EnumV(0)
                 yield
             return g3()
-        m = re.match(r"^Poll::<.*>::(is_ready|is_pending)$", callee)
+        if re.search(r"(?:^|::)Poll::<.*>::map::<", callee):
+            def g5():
+                ev = args[0]
+                if ev.variant != 0:
+                    return EnumV(1)
+                f = args[1]
+                v = ev.fields[0].v if ev.fields else UNIT
+                if isinstance(f, tuple) and f[0] == "opaque":
+                    ctor = re.search(r"(Ok|Err|Some)\b[^:]*$", f[1])
+                    if not ctor:
+                        raise Unsupported("Poll::map with " + f[1])
+                    r = EnumV({"Ok": 0, "Err": 1, "Some": 1}[ctor.group(1)], [Cell(v)])
+                else:
+                    r = yield from self.call_closure(f, [v], path)
+                return EnumV(0, [Cell(r)])
+            return g5()
+        m = re.search(r"(?:^|::)Poll::<.*>::(is_ready|is_pending)$", callee)
         if m:
             def g4():
                 ev = args[0].cell.v if isinstance(args[0], Ref) else args[0]
